@@ -803,3 +803,102 @@ Lemma query_unmapped_on_witnesses :
   query_unmapped (flat_map mspec_entries unm_witness) unm_witness = Ok (scan_unplaced unm_witness) /\
   query_unmapped (flat_map mspec_entries dup_witness) dup_witness = Ok [].
 Proof. vm_compute. split; reflexivity. Qed.
+
+(* ---------------------------------------------------------------------------------------- *)
+(* the one-slice query of Crai.v ([query_gen]) is the one-slice instance of [query_m]          *)
+
+(* the landmark an index entry carries is the landmark of the container at its offset *)
+Definition lm_agree (f : list container) (e : entry) : Prop :=
+  forall c, find_container (e_off e) f = Some c -> e_landmark e = c_landmark c.
+
+Lemma find_m_single_file : forall off f,
+  find_m off (single_file f) = option_map of_container (find_container off f).
+Proof.
+  intros off f. unfold single_file. induction f as [|c t IH]; [reflexivity|].
+  cbn [map find_m find_container]. unfold of_container at 1. cbn [m_off].
+  destruct (c_off c =? off); [reflexivity|exact IH].
+Qed.
+
+Theorem query_m_single_instance : forall sel es f r lo hi,
+  Forall (lm_agree f) es ->
+  query_m sel es (single_file f) r lo hi = Ok (query_gen sel es f r lo hi).
+Proof.
+  intros sel es f r lo hi. induction es as [|e t IH]; intros Hag; [reflexivity|].
+  inversion Hag as [|e' t' He Ht]; subst e' t'. specialize (IH Ht).
+  cbn [query_m query_gen]. destruct (opt_eqb (e_rid e) r); [|exact IH].
+  rewrite find_m_single_file. destruct (find_container (e_off e) f) as [c|] eqn:Ef; cbn [option_map]; [|reflexivity].
+  specialize (He c Ef). unfold slices_at, of_container. cbn [m_slices filter s_landmark].
+  rewrite He, N.eqb_refl. rewrite IH. cbn [flat_map s_recs]. rewrite app_nil_r. reflexivity.
+Qed.
+
+(* a landmark that is not the container's: the one-slice form of the InvalidData path *)
+Lemma query_m_single_bad_landmark : forall sel e t f r lo hi c,
+  opt_eqb (e_rid e) r = true -> find_container (e_off e) f = Some c -> e_landmark e <> c_landmark c ->
+  query_m sel (e :: t) (single_file f) r lo hi = ErrInvalidData.
+Proof.
+  intros sel e t f r lo hi c Hr Hf Hne. cbn [query_m]. rewrite Hr, find_m_single_file, Hf. cbn [option_map].
+  unfold slices_at, of_container. cbn [m_slices filter s_landmark].
+  destruct (c_landmark c =? e_landmark e) eqn:E; [apply N.eqb_eq in E; congruence|reflexivity].
+Qed.
+
+Lemma container_entries_at : forall pos c e, In e (container_entries pos c) ->
+  e_off e = pos /\ e_landmark e = c_landmark c.
+Proof.
+  intros pos c e Hin. unfold container_entries in Hin.
+  assert (Hm : forall sl recs, In e (multi_entries pos (c_landmark c) sl recs) -> e_off e = pos /\ e_landmark e = c_landmark c).
+  { intros sl recs H. unfold multi_entries in H. apply in_app_or in H. destruct H as [H|H].
+    - destruct (existsb is_unmapped recs); [|destruct H]. destruct H as [H|[]]. subst e. split; reflexivity.
+    - apply in_map_iff in H. destruct H as [k [H _]]. subst e. split; reflexivity. }
+  destruct (c_ctx c); try (destruct Hin as [Hin|[]]; subst e; split; reflexivity).
+  exact (Hm _ _ Hin).
+Qed.
+
+Lemma index_core_points : forall f pos, layout_ok pos f ->
+  Forall (fun e => exists c, In c f /\ e_off e = c_off c /\ e_landmark e = c_landmark c) (index_core pos f).
+Proof.
+  induction f as [|c t IH]; intros pos Hl; [constructor|].
+  cbn [layout_ok] in Hl. destruct Hl as [Hoff [Hh [Hlen Hl]]]. cbn [index_core].
+  apply Forall_app. split.
+  - apply Forall_forall. intros e He. destruct (container_entries_at _ _ _ He) as [H1 H2].
+    exists c. split; [left; reflexivity|]. split; [congruence|exact H2].
+  - specialize (IH _ Hl). apply Forall_forall. intros e He.
+    rewrite Forall_forall in IH. destruct (IH e He) as [c' [Hin H]]. exists c'. split; [right; exact Hin|exact H].
+Qed.
+
+Lemma index_core_lm_agree : forall f pos, layout_ok pos f -> Forall (lm_agree f) (index_core pos f).
+Proof.
+  intros f pos Hl. pose proof (index_core_points f pos Hl) as H. rewrite Forall_forall in *.
+  intros e He. destruct (H e He) as [c [Hin [Ho Hlm]]]. intros c' Hf.
+  rewrite Ho, (find_container_hit f pos c Hl Hin) in Hf. inversion Hf. subst c'. exact Hlm.
+Qed.
+
+(* every theorem about the one-slice query holds of [query_m] on the same file *)
+Theorem query_m_single_index : forall sel pos f r lo hi, layout_ok pos f ->
+  query_m sel (index_core pos f) (single_file f) r lo hi = Ok (query_gen sel (index_core pos f) f r lo hi).
+Proof. intros. apply query_m_single_instance. apply (index_core_lm_agree f pos). assumption. Qed.
+
+Theorem query_m_single_characterised : forall sel pos f r lo hi, file_ok pos f ->
+  query_m sel (index_core pos f) (single_file f) r lo hi =
+  Ok (flat_map (fun c => if existsb (on_ref r) (c_recs c) then filter (sel r lo hi) (c_recs c) else []) f).
+Proof.
+  intros sel pos f r lo hi H. rewrite (query_m_single_index sel pos f r lo hi (proj1 H)).
+  rewrite (query_gen_characterised sel pos f r lo hi H). reflexivity.
+Qed.
+
+Theorem query_m_single_through_index : forall pos f es r lo hi,
+  file_ok pos f -> index pos f = Ok es -> query_m selected es (single_file f) r lo hi = Ok (scan f r lo hi).
+Proof.
+  intros pos f es r lo hi H Hi. unfold index in Hi. inversion Hi. subst es.
+  rewrite (query_m_single_index selected pos f r lo hi (proj1 H)).
+  pose proof (query_through_index pos f (index_core pos f) r lo hi H eq_refl) as Q. unfold query in Q. rewrite Q. reflexivity.
+Qed.
+
+Theorem query_m_single_old_outside_f17 : forall pos f es r lo hi,
+  file_ok pos f -> index pos f = Ok es -> ~ f17_class f r lo hi ->
+  query_m selected_old es (single_file f) r lo hi = Ok (scan f r lo hi).
+Proof.
+  intros pos f es r lo hi H Hi Hn. unfold index in Hi. inversion Hi. subst es.
+  rewrite (query_m_single_index selected_old pos f r lo hi (proj1 H)).
+  pose proof (query_old_through_index_outside_f17 pos f (index_core pos f) r lo hi H eq_refl Hn) as Q.
+  unfold query_old in Q. rewrite Q. reflexivity.
+Qed.
